@@ -115,6 +115,8 @@ def native_observe(requests, release=False):
     reported as {'outcome': 'timeout'} (re-run one by one under a short limit)"""
     if not requests:
         return []
+    if any(str(r.get('mode', '')).startswith('alloc_') for r in requests):
+        return [alloc_observe(r) for r in requests]
     binp = build.replay_bin(release)
     for i, r in enumerate(requests):
         r['id'] = i
@@ -129,6 +131,28 @@ def native_observe(requests, release=False):
         else:
             res.append(o[0])
     return res
+
+
+_ALLOC_BINS = None
+
+
+def alloc_observe(r):
+    """C19 native replay: one step from a reachable state, or a two-thread stress run (release build)"""
+    global _ALLOC_BINS
+    from checker import kani
+    if _ALLOC_BINS is None:
+        _ALLOC_BINS = kani.native_bin()
+    b = _ALLOC_BINS['release' if r['mode'] == 'alloc_stress' else 'debug']
+    if r['mode'] == 'alloc_step':
+        cmd = [b, 'step', str(r['limit']), str(r['used']), r['op'], str(r['size']), str(r['old'])]
+    else:
+        cmd = [b, 'stress', r['op1'], r['op2'], str(r.get('iters', 300000))]
+    try:
+        p = subprocess.run(cmd, stdout=subprocess.PIPE, stderr=subprocess.PIPE, timeout=120)
+        out = p.stdout.decode().strip().splitlines()
+        return json.loads(out[-1]) if out and p.returncode == 0 else {'outcome': 'panic', 'panic': p.stderr.decode()[-300:]}
+    except subprocess.TimeoutExpired:
+        return {'outcome': 'timeout'}
 
 
 def parse_inputs(d):
@@ -215,6 +239,15 @@ def check_mirsym(pid, tier, seed):
             h = hmap[s['harness']]
             if not getattr(h, 'reports_for', None) or pid in h.reports_for(v['label']):
                 all_viol.append((s['harness'], v['label'], v['case']))
+    # at most three candidates per (harness, obligation) are replayed: the rest are the same site on other paths
+    seen_cnt = {}
+    trimmed = []
+    for hn, label, case in all_viol:
+        k = (hn, label)
+        seen_cnt[k] = seen_cnt.get(k, 0) + 1
+        if seen_cnt[k] <= 3:
+            trimmed.append((hn, label, case))
+    all_viol = trimmed
     # ---- replay every candidate natively (dev profile; thorough: also release)
     confirmed = []
     spurious = []
